@@ -3,7 +3,7 @@ spec->code table: ControllersGen.tla."""
 import itertools
 import json
 
-from vlib.core import MachineryError, pypose
+from vlib.core import MachineryError, pypose, run_apalache
 
 DECS = ["big", "small", "equal", "incr"]
 EVENTS = [{"dec": d, "kill": k} for d in DECS for k in (False, True)]
@@ -401,6 +401,17 @@ def run(ctx):
     ctx.tlc("Controllers", "Controllers_len12.cfg", workers=8, coverage=True,
             need_actions=["UserStep", "Reset", "LoopStart", "LoopBody", "LoopExit"])
     r = ctx.tlc("Controllers", "Controllers_live.cfg", workers=4)
+    # unbounded budget / patience / history length: inductive invariant discharged by Apalache
+    obligations = [("IndInit", "IndInv", 1), ("Init", "IndInv", 0), ("IndInit", "BudgetInv", 0)]
+    apa = []
+    for init, inv, length in obligations:
+        outcome, text = run_apalache("ControllersInd", init, inv, length, ctx.work / "apalache")
+        apa.append({"init": init, "inv": inv, "length": length, "outcome": outcome})
+        if outcome == "Error":
+            ctx.violation("design/apalache/%s" % inv, "Apalache refutes %s from %s in ControllersInd: %s" % (inv, init, text[-800:]))
+        elif outcome == "ToolFailure":
+            ctx.notes.append("apalache did not finish for %s/%s (not counted): %s" % (init, inv, text[-200:]))
+    ctx.extra["apalache_inductive_invariant"] = apa
     for res in ctx.tlc_runs:
         if res["violated"]:
             ctx.violation("design/%s" % res["violated"][0], "Controllers design model violates %s" % res["violated"])
